@@ -145,6 +145,47 @@ def _classify(res, exprs):
     res.nontrivial = comm or cross
 
 
+def _sharing(res, what, exprs, outs):
+    """evaluate all outputs with one evaluator, log the operation handlers that run: an
+    operation of the input (wrappers looked through) runs at most once per spelling class"""
+    classes = {}
+    for e in exprs:
+        for _, n in walk.occurrences(e):
+            if isinstance(n, OPS):
+                classes.setdefault(repr(deep_key(n)), set()).add(repr(shallow_key(n)))
+    env = envs.build_env({**S.BASE_ENV, **ENVS[0]})
+    log = []
+    ev = Recording(env, log)
+    ok = True
+    for o in outs:
+        try:
+            ev(o)
+        except (ZeroDivisionError, ValueError, OverflowError, TypeError):
+            ok = False   # undefined at this point: an aborted evaluation proves nothing
+            break
+        except Exception as exc:
+            res.fail(f"{what}:evaluation-raised:" + exc_site(exc), f"{o!r}: {exc!r}")
+            ok = False
+            break
+    if ok:
+        evals = Counter(repr(deep_key(n)) for n in log)
+        for dk, cls in classes.items():
+            res.compared()
+            n_ev = evals.get(dk, 0)
+            if n_ev < 1:
+                res.fail(f"{what}:operation-never-evaluated",
+                         f"{exprs!r} -> {outs!r}: an input operation is not evaluated at all")
+                break
+            if n_ev > len(cls):
+                res.fail(f"{what}:repeated-operation-evaluated-more-than-once",
+                         f"{exprs!r} -> {outs!r}: an operation occurring in {len(cls)} "
+                         f"spelling class(es) is evaluated {n_ev} times")
+                break
+        extra = set(evals) - set(classes)
+        if extra:
+            res.fail(f"{what}:evaluates-operation-not-in-input", f"{exprs!r} -> {outs!r}")
+
+
 def check_tag(spec):
     """spec: {"exprs": [expr specs]}  (wrapper-free)"""
     res = Result()
@@ -163,43 +204,7 @@ def check_tag(spec):
         return res.fail("tag:length-changed", f"{len(exprs)} -> {len(outs)}")
     _same_values(res, "tag", exprs, outs, "tag_common_subexpressions")
     _no_nested_wrappers(res, "tag", outs)
-    # sharing: evaluate all outputs with one evaluator, log operation handlers
-    classes = {}
-    for e in exprs:
-        for _, n in walk.occurrences(e):
-            if isinstance(n, OPS):
-                classes.setdefault(repr(deep_key(n)), set()).add(repr(shallow_key(n)))
-    env = envs.build_env({**S.BASE_ENV, **ENVS[0]})
-    log = []
-    ev = Recording(env, log)
-    ok = True
-    for o in outs:
-        try:
-            ev(o)
-        except (ZeroDivisionError, ValueError, OverflowError, TypeError):
-            ok = False   # undefined at this point: an aborted evaluation proves nothing
-            break
-        except Exception as exc:
-            res.fail("tag:evaluation-raised:" + exc_site(exc), f"{o!r}: {exc!r}")
-            ok = False
-            break
-    if ok:
-        evals = Counter(repr(deep_key(n)) for n in log)
-        for dk, cls in classes.items():
-            res.compared()
-            n_ev = evals.get(dk, 0)
-            if n_ev < 1:
-                res.fail("tag:operation-never-evaluated",
-                         f"{exprs!r} -> {outs!r}: an input operation is not evaluated at all")
-                break
-            if n_ev > len(cls):
-                res.fail("tag:repeated-operation-evaluated-more-than-once",
-                         f"{exprs!r} -> {outs!r}: an operation occurring in {len(cls)} "
-                         f"spelling class(es) is evaluated {n_ev} times")
-                break
-        extra = set(evals) - set(classes)
-        if extra:
-            res.fail("tag:evaluates-operation-not-in-input", f"{exprs!r} -> {outs!r}")
+    _sharing(res, "tag", exprs, outs)
     _classify(res, exprs)
     res.sample = {"input": [repr(e)[:150] for e in exprs],
                   "tagged": [repr(o)[:200] for o in outs]}
@@ -216,6 +221,9 @@ def check_tagpre(spec):
                         f"tag_common_subexpressions({exprs!r}): {type(exc).__name__}: {exc}")
     _same_values(res, "tagpre", exprs, outs, "tag_common_subexpressions")
     _no_nested_wrappers(res, "tagpre", outs)
+    # no sharing obligation here: the property states it for wrapper-free inputs, and the
+    # library does not merge a hand-placed wrapper with the one it creates for the same
+    # child ([CSE(x+y, 'inner'), x+y] keeps two wrappers, evaluated once each)
     _classify(res, exprs)
     res.label("pre-existing-wrappers")
     res.sample = {"input": [repr(e)[:150] for e in exprs],
